@@ -63,9 +63,10 @@ pub fn dash_model(subs: &[Sub], array: &[f32], offset: f32) -> Dashed {
             if on && b > a {
                 ivs.push((a, b));
             }
-            // boundaries strictly inside the path
+            // boundaries on the path, or so close to its ends that rounding may put them on it (a boundary a
+            // hair before the end of an open subpath starts one more piece, of almost no length but with caps)
             for bd in [pos, pos + len] {
-                if bd > 0. && bd < total {
+                if bd > -1. && bd < total + 1. {
                     for c in &cum {
                         out.min_boundary_to_vertex = out.min_boundary_to_vertex.min((bd - c).abs());
                     }
@@ -184,7 +185,7 @@ fn gen_case(rng: &mut Rng) -> Case {
             ops.push(PathOp::Close);
         }
     }
-    let path = Path { ops, winding: Winding::NonZero };
+    let path = Path { ops, winding: if rng.chance(0.4) { Winding::EvenOdd } else { Winding::NonZero } };
     let subs = subpaths(&path, 1);
     let total: f64 = subs.iter().map(|s| {
         let mut l = 0.;
